@@ -510,6 +510,9 @@ Fixpoint deliver (d : datum) (stack : list (N * list datum)) : datum + list (N *
       else inr (((n - 1)%N, d :: acc) :: rest)
   end.
 
+(* parseRedisDataDepth: one open array per level; depth > 32 is an error before the next token *)
+Definition MAX_ARRAY_DEPTH : nat := 32.
+
 Definition PScan (k : option bytes -> prog) : prog := PUntil LF (fun res => k (scan_token res)).
 
 Fixpoint redis_prog (fuel : nat) (stack : list (N * list datum)) : prog :=
@@ -531,6 +534,8 @@ Fixpoint redis_prog (fuel : nat) (stack : list (N * list datum)) : prog :=
             | DArr (DArr _ :: _) => PDone 0
             end
         end in
+      if MAX_ARRAY_DEPTH <? length stack then PDone 0          (* "Arrays nested deeper than 32" *)
+      else
       PScan (fun tok =>
         match tok with
         | None => PDone 0
@@ -568,9 +573,9 @@ Definition mc_storage (w : bytes) : bool :=
 Definition mc_strip (l : bytes) : bytes :=
   if 2 <=? length l then firstn (length l - 2) l else l.
 
-(* ideal = true: the reference framing of the memcached text protocol (data block of
-   exactly <bytes> bytes, then \r\n); ideal = false: the code *)
-Fixpoint memcached_prog (ideal : bool) (udp : bool) (fuel : nat) : prog :=
+(* storage commands: the data block is exactly <bytes> bytes followed by \r\n; the payload is
+   its first 80 bytes (io.ReadFull), the rest and the \r\n are discarded *)
+Fixpoint memcached_prog (udp : bool) (fuel : nat) : prog :=
   match fuel with
   | O => PDone OUT_OF_FUEL
   | S f =>
@@ -589,37 +594,30 @@ Fixpoint memcached_prog (ideal : bool) (udp : bool) (fuel : nat) : prog :=
                          | None => PDone 1
                          | Some v =>
                              let ev p := mkEv EV_MC_STORE [w; key; flags; exptime; cnt; p] in
-                             if ideal then
-                               if (v <? 0)%Z then PDone 1 else
-                               PTake (Z.to_nat v) (fun data =>
-                                 match data, Z.to_nat v with
-                                 | [], S _ => PDone 1
-                                 | _, _ => PTake 2 (fun _ => PEmit (ev (firstn 80 data)) (memcached_prog ideal udp f))
-                                 end)
-                             else
-                               PRead 80 (fun b =>
-                                 match b with
-                                 | [] => PDone 1
-                                 | _ => let rest := (v - Z.of_nat (length b))%Z in
-                                        PTake (Z.to_nat rest) (fun _ => PEmit (ev b) (memcached_prog ideal udp f))
-                                 end)
+                             if (v <? 0)%Z then PDone 1 else
+                             PTake (Z.to_nat v) (fun data =>
+                               match data, Z.to_nat v with
+                               | [], S _ => PDone 1                      (* ReadFull: nothing there *)
+                               | _, _ => PTake 2 (fun _ => PEmit (ev (firstn 80 data)) (memcached_prog udp f))
+                               end)
                          end
                      | _ => PDone 1
                      end
-                   else memcached_prog ideal udp f
-               | [] => memcached_prog ideal udp f
+                   else memcached_prog udp f
+               | [] => memcached_prog udp f
                end)
         end)
   end.
 
-(* over UDP the first 8 bytes are the frame header (one Read of 8 bytes) *)
-Definition memcached_udp_prog (ideal : bool) (fuel : nat) : prog :=
-  (if ideal then PTake 8 else PRead 8) (fun _ => memcached_prog ideal true fuel).
+(* over UDP the first 8 bytes are the frame header: ONE Read of 8 bytes (exact = false) or,
+   in the reference reading, exactly 8 bytes *)
+Definition memcached_udp_prog (exact : bool) (fuel : nat) : prog :=
+  (if exact then PTake 8 else PRead 8) (fun _ => memcached_prog true fuel).
 
 (* ------------------------------------------------------------------ *)
 (* http family: http.ReadRequest on the request grammar + the handlers' body handling *)
 (* ------------------------------------------------------------------ *)
-Inductive body_mode := BFirstRead | BReadAll.
+Inductive body_mode := BFirstRead (* payload = first 1024 bytes, rest discarded *) | BReadAll.
 Inductive emit_rule := EAlways | EPostBody | EJson.
 Record http_cfg := mkHttp { h_loop : bool; h_body : body_mode; h_emit : emit_rule }.
 
@@ -669,26 +667,21 @@ Fixpoint http_headers (fuel : nat) (host : bytes) (cl : option N)
         end)
   end.
 
-(* how the handler reads: m_fresh = a new bufio.Reader for every request of the loop,
-   m_short = the payload is one Read of the body (and the rest is discarded by Reads).
-   MODE_CODE is the code as it is; MODE_REF the reference reading (one reader per
-   connection, payload = the first 1024 bytes of the body).  After fixes/C04-http-*.patch
-   the mode of the patched handler becomes (false, _) resp. (_, false). *)
-Record http_mode := mkMode { m_fresh : bool; m_short : bool }.
-Definition MODE_CODE := mkMode true true.
-Definition MODE_REF := mkMode false false.
-
+(* fresh = true: the handler creates its bufio.Reader where the request is read (inside the
+   loop for cwmp: one per request); fresh = false: one reader per connection (http after
+   557c6c5, and the reference reading).  The payload is the first 1024 bytes of the body
+   (io.ReadFull), the rest of the body is consumed. *)
 (* io.Copy(ioutil.Discard, req.Body): 8192-byte Reads of the length-limited body *)
-Fixpoint http_discard (short : bool) (fuel : nat) (rem : nat) (k : prog) : prog :=
+Fixpoint http_discard (fuel : nat) (rem : nat) (k : prog) : prog :=
   match fuel with
   | O => PDone OUT_OF_FUEL
   | S f =>
       match rem with
       | O => k
-      | _ => (if short then PRead else PTake) (Nat.min (N.to_nat 8192) rem) (fun b =>
+      | _ => PTake (Nat.min (N.to_nat 8192) rem) (fun b =>
                match b with
                | [] => k
-               | _ => http_discard short f (rem - length b) k
+               | _ => http_discard f (rem - length b) k
                end)
       end
   end.
@@ -699,12 +692,12 @@ Definition json_like (b : bytes) : bool :=
   | _, _ => false
   end.
 
-Fixpoint http_prog (cfg : http_cfg) (md : http_mode) (fuel : nat) : prog :=
+Fixpoint http_prog (cfg : http_cfg) (fresh : bool) (fuel : nat) : prog :=
   match fuel with
   | O => PDone OUT_OF_FUEL
   | S f =>
-      let again : prog := if h_loop cfg then http_prog cfg md f else PDone 0 in
-      let start (k : prog) : prog := if m_fresh md then PNewReader k else k in
+      let again : prog := if h_loop cfg then http_prog cfg fresh f else PDone 0 in
+      let start (k : prog) : prog := if fresh then PNewReader k else k in
       start (PUntil LF (fun res =>
         match tp_line res with
         | None => PDone 0                                   (* io.EOF before a request *)
@@ -737,10 +730,10 @@ Fixpoint http_prog (cfg : http_cfg) (md : http_mode) (fuel : nat) : prog :=
                           | BFirstRead =>
                               match n with
                               | O => emit [] again
-                              | _ => (if m_short md then PRead else PTake) (Nat.min 1024 n) (fun b =>
+                              | _ => PTake (Nat.min 1024 n) (fun b =>
                                        match b with
                                        | [] => PDone 1                    (* unexpected EOF *)
-                                       | _ => http_discard (m_short md) f (n - length b) (emit b again)
+                                       | _ => http_discard f (n - length b) (emit b again)
                                        end)
                               end
                           | BReadAll =>
@@ -765,12 +758,9 @@ Definition cfg_cwmp := mkHttp true BReadAll EPostBody.
 (* ------------------------------------------------------------------ *)
 (* UDP services: one Handle per datagram, connection = [datagram]      *)
 (* ------------------------------------------------------------------ *)
-(* what Handle is given: the server always wraps the datagram connection *)
-Inductive conn_kind := KDummyUDP | KWrapped | KTCP.
-
 (* tftp: 2-byte opcode (one Read), RRQ/WRQ = two zero-terminated strings *)
-Definition tftp_prog (ideal : bool) : prog :=
-  (if ideal then PTake 2 else PRead 2) (fun op =>
+Definition tftp_prog (exact : bool) : prog :=
+  (if exact then PTake 2 else PRead 2) (fun op =>
     match op with
     | [_; o] =>
         if beq o 1%N || beq o 2%N then
@@ -800,8 +790,8 @@ Definition cs_query (q : N) : option bytes :=
 
 Definition pad4 (b : bytes) : bytes := firstn 4 (b ++ [0;0;0;0]%N).
 
-Definition cs_prog (ideal : bool) : prog :=
-  (if ideal then PTake 1024 else PRead 1024) (fun b =>
+Definition cs_prog (exact : bool) : prog :=
+  (if exact then PTake 1024 else PRead 1024) (fun b =>
     let h := pad4 b in
     if eqb_bytes h [255;255;255;255]%N || eqb_bytes h [255;255;255;254]%N then
       match skipn 4 b with
@@ -813,19 +803,16 @@ Definition cs_prog (ideal : bool) : prog :=
       end
     else PDone 0).
 
-(* dns: Handle inspects the concrete connection type first *)
+(* dns: one Read of 65535 bytes on the connection itself (udp and tcp alike, 4b4eb8c), then
+   dns.Msg.Unpack - here: at least the 12-byte header, the id is reported *)
 Definition dns_event (dgram : bytes) : prog :=
   match dgram with
   | a :: b :: _ :: _ :: _ :: _ :: _ :: _ :: _ :: _ :: _ :: _ :: _ =>
       PEmit (mkEv EV_DNS [N_to_dec (a * 256 + b)%N]) (PDone 0)
   | _ => PDone 1
   end.
-Definition dns_prog (kind : conn_kind) : prog :=
-  match kind with
-  | KWrapped => PDone 0                                     (* "Unsupported connection type" *)
-  | _ => PRead (N.to_nat 65535) (fun b => dns_event b)
-  end.
-Definition dns_spec_prog : prog := PTake (N.to_nat 65535) (fun b => dns_event b).
+Definition dns_prog (exact : bool) : prog :=
+  (if exact then PTake else PRead) (N.to_nat 65535) (fun b => dns_event b).
 
 (* ------------------------------------------------------------------ *)
 (* service table                                                       *)
@@ -844,44 +831,41 @@ Definition SVC_MEMCACHED_UDP : N := 20%N.
 Definition SVC_TFTP : N := 21%N.
 Definition SVC_CS : N := 22%N.
 Definition SVC_DNS : N := 23%N.
-Definition SVC_DNS_BARE : N := 24%N.   (* the datagram connection itself, NOT how the server delivers it *)
 
 (* the code *)
 Definition impl_prog (svc : N) (fuel : nat) : prog :=
   if beq svc SVC_FTP then ftp_prog fuel
   else if beq svc SVC_SMTP then smtp_prog fuel SHello 0 []
   else if beq svc SVC_REDIS then redis_prog fuel []
-  else if beq svc SVC_MEMCACHED then memcached_prog false false fuel
-  else if beq svc SVC_HTTP then http_prog cfg_http MODE_CODE fuel
-  else if beq svc SVC_DOCKER then http_prog cfg_docker MODE_CODE fuel
-  else if beq svc SVC_ELASTIC then http_prog cfg_elastic MODE_CODE fuel
-  else if beq svc SVC_EOS then http_prog cfg_eos MODE_CODE fuel
-  else if beq svc SVC_ETHEREUM then http_prog cfg_ethereum MODE_CODE fuel
-  else if beq svc SVC_CWMP then http_prog cfg_cwmp MODE_CODE fuel
+  else if beq svc SVC_MEMCACHED then memcached_prog false fuel
+  else if beq svc SVC_HTTP then http_prog cfg_http false fuel
+  else if beq svc SVC_DOCKER then http_prog cfg_docker true fuel
+  else if beq svc SVC_ELASTIC then http_prog cfg_elastic true fuel
+  else if beq svc SVC_EOS then http_prog cfg_eos true fuel
+  else if beq svc SVC_ETHEREUM then http_prog cfg_ethereum true fuel
+  else if beq svc SVC_CWMP then http_prog cfg_cwmp true fuel
   else if beq svc SVC_MEMCACHED_UDP then memcached_udp_prog false fuel
   else if beq svc SVC_TFTP then tftp_prog false
   else if beq svc SVC_CS then cs_prog false
-  else if beq svc SVC_DNS then dns_prog KWrapped
-  else if beq svc SVC_DNS_BARE then dns_prog KDummyUDP
+  else if beq svc SVC_DNS then dns_prog false
   else PDone 0.
 
-(* the reference reading of the same byte stream *)
+(* the reference reading of the same byte stream: one reader per connection, exact counts *)
 Definition spec_prog (svc : N) (fuel : nat) : prog :=
   if beq svc SVC_FTP then ftp_prog fuel
   else if beq svc SVC_SMTP then smtp_prog fuel SHello 0 []
   else if beq svc SVC_REDIS then redis_prog fuel []
-  else if beq svc SVC_MEMCACHED then memcached_prog true false fuel
-  else if beq svc SVC_HTTP then http_prog cfg_http MODE_REF fuel
-  else if beq svc SVC_DOCKER then http_prog cfg_docker MODE_REF fuel
-  else if beq svc SVC_ELASTIC then http_prog cfg_elastic MODE_REF fuel
-  else if beq svc SVC_EOS then http_prog cfg_eos MODE_REF fuel
-  else if beq svc SVC_ETHEREUM then http_prog cfg_ethereum MODE_REF fuel
-  else if beq svc SVC_CWMP then http_prog cfg_cwmp MODE_REF fuel
+  else if beq svc SVC_MEMCACHED then memcached_prog false fuel
+  else if beq svc SVC_HTTP then http_prog cfg_http false fuel
+  else if beq svc SVC_DOCKER then http_prog cfg_docker false fuel
+  else if beq svc SVC_ELASTIC then http_prog cfg_elastic false fuel
+  else if beq svc SVC_EOS then http_prog cfg_eos false fuel
+  else if beq svc SVC_ETHEREUM then http_prog cfg_ethereum false fuel
+  else if beq svc SVC_CWMP then http_prog cfg_cwmp false fuel
   else if beq svc SVC_MEMCACHED_UDP then memcached_udp_prog true fuel
   else if beq svc SVC_TFTP then tftp_prog true
   else if beq svc SVC_CS then cs_prog true
-  else if beq svc SVC_DNS then dns_spec_prog
-  else if beq svc SVC_DNS_BARE then dns_spec_prog
+  else if beq svc SVC_DNS then dns_prog true
   else PDone 0.
 
 Definition fuel_for (s : bytes) : nat := 3 * length s + 10.
